@@ -826,6 +826,17 @@ def run_sdf(case):
             else:
                 got = rec.get_structure()
             check_molecule(o, got, atoms, want_bonds, [a[4] for a in atoms], tag=f"[record {r['name']!r}] ")
+        # a new file assembled from the (still unparsed) records of a parsed one through the
+        # constructor argument, under new names and in reverse order
+        fresh = molio.SDFile.read(io.StringIO(text))
+        renamed = {f"renamed {i}": fresh[r["name"]] for i, r in reversed(list(enumerate(recs)))}
+        merged = molio.SDFile(renamed)
+        _, again = write_read_text(merged, molio.SDFile, "stringio")
+        if o.check_eq(list(again.keys()), list(renamed.keys()), "record_names_and_order", "records given to the SDFile constructor under new names"):
+            for i, r in enumerate(recs):
+                rec = again[f"renamed {i}"]
+                o.check_eq(rec.header.mol_name, f"renamed {i}", "sdf_header_fields", "mol_name of a renamed record")
+                o.check_eq([[key_tuple(k), v] for k, v in rec.metadata.items()], [[list(k), v] for k, v in r["meta"]], "sdf_metadata", f"metadata of renamed record {i}")
         if multi_line:
             o.label("multi_line_value")
         if registry:
